@@ -123,6 +123,11 @@ macro_rules! impl_suffstat {
                 self.n -= xs.len();
                 self.sum_ln_x -=
                     xs.iter().map(|x| f64::from(*x)).product::<f64>().ln();
+                if self.n == 0 {
+                    // forgetting everything returns exactly the empty
+                    // statistic, as `forget` does
+                    self.sum_ln_x = 0.0;
+                }
             }
         }
     };
